@@ -100,6 +100,7 @@ def MsgPlain (c : Cfg) : Msg → Prop
   | .completeStage i => i < c.n
   | .cancelStage i => i < c.n
   | .completeWorkflow _ => True
+  | .cancelWorkflow => True      -- a cancel request that has not been handled yet
   | _ => False
 
 structure StageInv (c : Cfg) (s : State) (i : Nat) : Prop where
@@ -131,7 +132,8 @@ structure Pre (c : Cfg) (s : State) : Prop where
   len : s.stages.length = c.n
   nc : s.canceled = false
   wf : s.wfStatus = .notStarted
-  queue : ∃ x, s.queue = [x] ∧ x.msg = .startWorkflow
+  queue : ∃ x ∈ s.queue, x.msg = .startWorkflow ∧ (∀ y ∈ s.queue, y.msg = .startWorkflow → y = x) ∧
+    ∀ y ∈ s.queue, y = x ∨ y.msg = .cancelWorkflow
   pristine : ∀ i, i < c.n → (s.stage i).status = .notStarted ∧ (s.stage i).jumpBypass = false ∧
     (s.stage i).tasks.length = (c.stage i).tasks.length ∧ ∀ t, ((s.stage i).tasks.getD t default).status = .notStarted
 
@@ -1641,10 +1643,10 @@ namespace Stab.Engine
 open Stab
 
 theorem pre_startWorkflow (c : Cfg) (s : State) (r : Row) (s' : State)
-    (h : Pre c s) (hr : r ∈ s.queue) (hf : Facts c s r s') :
+    (h : Pre c s) (hr : r ∈ s.queue) (hm : r.msg = .startWorkflow) (hf : Facts c s r s') :
     s'.wfStatus.isComplete = true ∨ Core c s' := by
-  obtain ⟨x, hq, hxm⟩ := h.queue
-  have hrx : r = x := by rw [hq] at hr; simpa using hr
+  obtain ⟨x, hxq, hxm, hxuniq, hxothers⟩ := h.queue
+  have hrx : r = x := hxuniq r hr hm
   subst hrx
   by_cases hinit : ((List.range c.n).filter (fun i => (c.reqs i).isEmpty)).isEmpty = true
   · left
@@ -1668,12 +1670,15 @@ theorem pre_startWorkflow (c : Cfg) (s : State) (r : Row) (s' : State)
     have hpushes : pushesOf (handle c s { r with attempts := r.attempts + 1 }).1.flatten =
         ((List.range c.n).filter (fun i => (c.reqs i).isEmpty)).map (fun i => (Msg.startStage i 0, 0)) := by
       rw [heffs]; simp only [pushesOf]; exact pushesOf_map_push _ _
-    have hnewmsg : ∀ y ∈ s'.queue, ∃ j, j < c.n ∧ (c.reqs j) = [] ∧ y.msg = .startStage j 0 := by
+    have hnewmsg : ∀ y ∈ s'.queue, y.msg = .cancelWorkflow ∨ ∃ j, j < c.n ∧ (c.reqs j) = [] ∧ y.msg = .startStage j 0 := by
       intro y hy
       rcases hf.old y hy with h1 | ⟨h1, _⟩
-      · exfalso
-        have := h1.1; rw [hq] at this; simp at this; exact h1.2 this
-      · rw [hpushes] at h1
+      · left
+        rcases hxothers y h1.1 with h2 | h2
+        · exact absurd h2 h1.2
+        · exact h2
+      · right
+        rw [hpushes] at h1
         simp only [List.mem_map, List.mem_filter, List.mem_range, Prod.mk.injEq] at h1
         obtain ⟨j, ⟨hj, hre⟩, hmj, _⟩ := h1
         exact ⟨j, hj, by simpa using hre, hmj.symm⟩
@@ -1697,14 +1702,14 @@ theorem pre_startWorkflow (c : Cfg) (s : State) (r : Row) (s' : State)
       · intro _
         refine ⟨?_, by rw [hstg j]; exact p4⟩
         intro y hy
-        obtain ⟨j', _, _, hmy⟩ := hnewmsg y hy
-        rw [hmy]; rfl
+        rcases hnewmsg y hy with hmy | ⟨j', _, _, hmy⟩ <;> (rw [hmy]; rfl)
       · intro hx; rw [hstg j, p1] at hx; cases hx
       · intro hx; rw [hstg j, p1] at hx; cases hx
       · intro hx; rw [hstg j, p1] at hx; exact absurd rfl hx
     · intro y hy
-      obtain ⟨j', hj', _, hmy⟩ := hnewmsg y hy
-      rw [hmy]; exact hj'
+      rcases hnewmsg y hy with hmy | ⟨j', hj', _, hmy⟩
+      · rw [hmy]; trivial
+      · rw [hmy]; exact hj'
     · intro j hj _ hreq
       have hre : c.reqs j = [] := by
         cases hq' : c.reqs j with
@@ -1744,8 +1749,7 @@ theorem pre_startWorkflow (c : Cfg) (s : State) (r : Row) (s' : State)
         have := hall j hjn
         rw [hstg j, (h.pristine j hjn).1] at this; cases this
     · intro y hy j hmy
-      obtain ⟨j', _, _, hmy'⟩ := hnewmsg y hy
-      rw [hmy] at hmy'; cases hmy'
+      rcases hnewmsg y hy with hmy' | ⟨j', _, _, hmy'⟩ <;> (rw [hmy] at hmy'; cases hmy')
 
 end Stab.Engine
 
@@ -1761,11 +1765,11 @@ theorem live_no_raise (c : Cfg) (s : State) (h : Live c s) (r : Row) (hr : r ∈
     unfold completeWorkflowRaises
     rcases h.cases with h1 | h1 | h1
     · simp [h1]
-    · obtain ⟨x, hq, hxm⟩ := h1.queue
-      have : r = x := by rw [hq] at hr; simpa using hr
-      subst this
+    · obtain ⟨x, _, hxm, _, hxothers⟩ := h1.queue
       simp only at hm
-      rw [hxm] at hm; cases hm
+      rcases hxothers r hr with h2 | h2
+      · subst h2; rw [hxm] at hm; cases hm
+      · rw [h2] at hm; cases hm
     · have hnc : s.wfStatus.isComplete = false := by rw [h1.running]; rfl
       simp only [hnc, Bool.not_false, Bool.true_and]
       cases hfs : finalStatus c s k with
@@ -1776,12 +1780,40 @@ theorem live_no_raise (c : Cfg) (s : State) (h : Live c s) (r : Row) (hr : r ∈
         rcases this with rfl | rfl <;> rfl
   · rfl
 
-/-- **The driver invariant is preserved by every acknowledged delivery.** -/
+theorem applyTxn_canceled_iff (s : State) (l : List Eff) :
+    (applyTxn s l).canceled = true ↔ s.canceled = true ∨ Eff.setCanceled ∈ l := by
+  induction l generalizing s with
+  | nil => simp [applyTxn]
+  | cons e es ih =>
+    have := ih (applyEff s e)
+    simp only [applyTxn, List.foldl] at this ⊢
+    rw [this]
+    cases e with
+    | setCanceled => simp [applyEff]
+    | setStage i n =>
+      have : (applyEff s (.setStage i n)).canceled = s.canceled := by simp only [applyEff]; split <;> rfl
+      rw [this]; simp
+    | mark id =>
+      have : (applyEff s (.mark id)).canceled = s.canceled := by simp only [applyEff]; split <;> rfl
+      rw [this]; simp
+    | setWf st => simp [applyEff]
+    | push m => simp [applyEff]
+    | pushA m a => simp [applyEff]
+
+/-- handling an unhandled cancel request in a workflow that is not final sets the cancel flag -/
+theorem cancelWorkflow_sets_flag (c : Cfg) (s : State) (r : Row) (s' : State) (hm : r.msg = .cancelWorkflow)
+    (hnc : s.wfStatus.isComplete = false)
+    (hcore : sameCore s' (applyTxn s (handle c s { r with attempts := r.attempts + 1 }).1.flatten)) : s'.canceled = true := by
+  rw [hcore.2.2, applyTxn_canceled_iff]
+  right
+  simp [handle, hm, hCancelWorkflow, hnc]
+
+/-- **The driver invariant is preserved by every acknowledged delivery** — until a cancel request is accepted (from
+    then on `CancInv`, `Lemmas/EngineCancel.lean`, takes over). -/
 theorem live_step (c : Cfg) (hc : PlainCfg c) (s : State) (hg : Good s) (h : Live c s) (id : Nat) :
-    Live c (step c s (.deliver id)) := by
-  refine ⟨deliver_plumb c s id h.plumb, ?_⟩
+    (step c s (.deliver id)).canceled = true ∨ Live c (step c s (.deliver id)) := by
   cases hfind : s.queue.find? (fun x => x.id == id) with
-  | none => simp only [step, hfind]; exact h.cases
+  | none => right; simp only [step, hfind]; exact h
   | some r =>
     obtain ⟨hmem, hid⟩ := find_mem hfind
     subst hid
@@ -1789,29 +1821,38 @@ theorem live_step (c : Cfg) (hc : PlainCfg c) (s : State) (hg : Good s) (h : Liv
     have hnr := live_no_raise c s h r hmem
     have hshape := deliver_shape c s r.id r hfind hun (h.plumb.fresh r hmem) hnr
     have hf := facts_of_shape c s r _ h.plumb hmem hshape
+    have hpl := deliver_plumb c s r.id h.plumb
     rcases h.cases with h1 | h1 | h1
     · -- a final workflow status is final
-      left
+      right
+      refine ⟨hpl, Or.inl ?_⟩
       have := step_stable (wfFinal_stable _ h1) c (plain_noJump c hc) s (.deliver r.id) hg rfl
       rw [this]; exact h1
-    · rcases pre_startWorkflow c s r _ h1 hmem hf with h2 | h2
-      · exact Or.inl h2
-      · exact Or.inr (Or.inr h2)
-    · have hmp := h1.msgs r hmem
-      cases hm : r.msg with
-      | startStage i k => exact Or.inr (Or.inr (core_startStage c hc s r _ i k h1 hmem hm hf))
-      | startTask i t => exact Or.inr (Or.inr (core_startTask c hc s r _ i t h1 hmem hm hf))
-      | runTask i t => exact Or.inr (Or.inr (core_runTask c hc s r _ i t h1 hmem hm hf))
-      | completeTask i t x => exact Or.inr (Or.inr (core_completeTask c hc s r _ i t x h1 hmem hm hf))
-      | completeStage i => exact Or.inr (Or.inr (core_completeStage c hc s r _ i h1 hmem hm hf))
-      | cancelStage i => exact Or.inr (Or.inr (core_cancelStage c s r _ i h1 hmem hm hf))
-      | completeWorkflow k =>
-        rcases core_completeWorkflow c s r _ k h1 hmem hm hf with h2 | h2
+    · obtain ⟨x, _, hxm, _, hxothers⟩ := h1.queue
+      rcases hxothers r hmem with h2 | h2
+      · subst h2
+        right
+        refine ⟨hpl, ?_⟩
+        rcases pre_startWorkflow c s r _ h1 hmem hxm hf with h2 | h2
         · exact Or.inl h2
         · exact Or.inr (Or.inr h2)
+      · left
+        exact cancelWorkflow_sets_flag c s r _ h2 (by rw [h1.wf]; rfl) hf.core
+    · have hmp := h1.msgs r hmem
+      cases hm : r.msg with
+      | startStage i k => exact Or.inr ⟨hpl, Or.inr (Or.inr (core_startStage c hc s r _ i k h1 hmem hm hf))⟩
+      | startTask i t => exact Or.inr ⟨hpl, Or.inr (Or.inr (core_startTask c hc s r _ i t h1 hmem hm hf))⟩
+      | runTask i t => exact Or.inr ⟨hpl, Or.inr (Or.inr (core_runTask c hc s r _ i t h1 hmem hm hf))⟩
+      | completeTask i t x => exact Or.inr ⟨hpl, Or.inr (Or.inr (core_completeTask c hc s r _ i t x h1 hmem hm hf))⟩
+      | completeStage i => exact Or.inr ⟨hpl, Or.inr (Or.inr (core_completeStage c hc s r _ i h1 hmem hm hf))⟩
+      | cancelStage i => exact Or.inr ⟨hpl, Or.inr (Or.inr (core_cancelStage c s r _ i h1 hmem hm hf))⟩
+      | completeWorkflow k =>
+        rcases core_completeWorkflow c s r _ k h1 hmem hm hf with h2 | h2
+        · exact Or.inr ⟨hpl, Or.inl h2⟩
+        · exact Or.inr ⟨hpl, Or.inr (Or.inr h2)⟩
+      | cancelWorkflow => exact Or.inl (cancelWorkflow_sets_flag c s r _ hm (by rw [h1.running]; rfl) hf.core)
       | startWorkflow => rw [hm] at hmp; cases hmp
       | skipStage i => rw [hm] at hmp; cases hmp
-      | cancelWorkflow => rw [hm] at hmp; cases hmp
       | jumpToStage a b => rw [hm] at hmp; cases hmp
       | signalStage i p => rw [hm] at hmp; cases hmp
 
@@ -1822,8 +1863,10 @@ open Stab
 
 theorem start_live (c : Cfg) : Live c (start c) := by
   refine ⟨start_plumb c, Or.inr (Or.inl ?_)⟩
-  refine ⟨?_, rfl, rfl, ⟨_, rfl, rfl⟩, ?_⟩
+  refine ⟨?_, rfl, rfl, ⟨{ id := 1, msg := .startWorkflow }, by simp [start, applyEff, initState], rfl, ?_, ?_⟩, ?_⟩
   · simp [start, applyEff, initState, Cfg.n]
+  · intro y hy _; simpa [start, applyEff, initState] using hy
+  · intro y hy; left; simpa [start, applyEff, initState] using hy
   · intro i hi
     have hlt : i < c.stages.length := hi
     have hst : (start c).stage i = { tasks := (c.stage i).tasks.map (fun _ => ({} : TaskSt)) } := by
@@ -1836,15 +1879,5 @@ theorem start_live (c : Cfg) : Live c (start c) := by
 
 /-- an operation list that only delivers (and acknowledges) pending messages -/
 def DeliverOnly (ops : List Op) : Prop := ∀ op ∈ ops, ∃ id, op = .deliver id
-
-theorem run_live (c : Cfg) (hc : PlainCfg c) (ops : List Op) (hd : DeliverOnly ops) : Live c (run c ops) := by
-  unfold run
-  suffices ∀ s, Good s → Live c s → Live c (ops.foldl (step c) s) from this _ (start_good c) (start_live c)
-  induction ops with
-  | nil => intro s _ h; exact h
-  | cons op ops ih =>
-    intro s hg h
-    obtain ⟨id, rfl⟩ := hd _ (List.mem_cons_self ..)
-    exact ih (fun o ho => hd o (List.mem_cons_of_mem _ ho)) _ (step_good c (plain_noJump c hc) s _ hg) (live_step c hc s hg h id)
 
 end Stab.Engine
